@@ -1809,8 +1809,13 @@ namespace bloch::compiler {
     }
 
     void SemanticAnalyser::visit(EchoStatement& node) {
-        if (node.value)
+        if (node.value) {
             node.value->accept(*this);
+            if (inferTypeInfo(node.value.get()).value == ValueType::Void) {
+                throw BlochError(ErrorCategory::Semantic, node.line, node.column,
+                                 "cannot echo the result of a 'void' call");
+            }
+        }
     }
 
     void SemanticAnalyser::visit(ResetStatement& node) {
